@@ -342,7 +342,7 @@ def gen_case(rng, tmp, ci):
                 groups.append(["-xticklabels", ",".join("t%d" % i for i in range(n))])
             if f == "-leg" and nfiles == 3:
                 groups[-1][1] = v + ",Third"
-            if rng.random() < 0.12:                      # the same option twice: the last one counts
+            if rng.random() < 0.12 and f != "-xticks":   # the same option twice: the last one counts (not -xticks: its labels must match)
                 groups.append([f, value_pool(rng, f)])
                 if f == "-leg" and nfiles == 3:
                     groups[-1][1] += ",Third"
